@@ -28,7 +28,9 @@ Bake(T, opt) ==
                                   [i |-> T.f[j].i, n |-> T.f[j].n, enc |-> T.f[j].enc,
                                    intern |-> (T.f[j].opt = "intern"),
                                    t |-> Bake(T.f[j].t, IF T.f[j].opt = "intern" THEN "" ELSE T.f[j].opt)]]]
-    [] T.k = "ref"    -> IF opt = "" THEN T ELSE Bake(Env[T.n], opt)
+    [] T.k = "ref"    -> IF opt = "" THEN T
+                         ELSE IF opt = "rf" THEN [k |-> "refid", n |-> T.n]      \* (C17) a codec registered for the struct type itself under the tag rf: the first field stands for the value
+                         ELSE Bake(Env[T.n], opt)
     [] OTHER          -> T
 
 BEnv == [n \in DOMAIN Env |-> Bake(Env[n], "")]
@@ -51,6 +53,7 @@ RECURSIVE WT(_, _)
 WT(cfg, T0) == LET T == Resolve(T0) IN
   CASE T.k \in {"bool", "int", "uint", "bqtime"} -> WTVarInt
     [] T.k = "marked" -> IF Marker(cfg, T) THEN WT32 ELSE WTVarInt
+    [] T.k = "refid" -> WT32
     [] T.k = "f64" -> WT64
     [] T.k = "f32" -> WT32
     [] T.k \in {"string", "bytes", "time", "struct"} -> WTLength
@@ -82,6 +85,7 @@ Zero(T0) == LET T == Resolve(T0) IN
     [] T.k = "slice" -> [nil |-> TRUE, e |-> <<>>]
     [] T.k = "map" -> [nil |-> TRUE, m |-> <<>>]
     [] T.k = "struct" -> [i \in 1..Len(T.f) |-> Zero(T.f[i].t)]
+    [] T.k = "refid" -> Zero(BEnv[T.n])
     [] T.k = "unsup" -> <<>>          \* unsupported Go kinds only occur in fields that are never encoded; their values are opaque
     [] T.k = "jsonobj" -> [k |-> "obj", nil |-> TRUE, m |-> <<>>]
     [] T.k = "jsonarr" -> [k |-> "arr", nil |-> TRUE, e |-> <<>>]
